@@ -38,115 +38,12 @@ func runC04(c *Ctx) {
 
 	// ---- R2 line state is advanced after the whole terminator
 	r2 := c.Rule("R2", "lineStart is assigned after the whole line terminator", 4)
+	c04LineState(c, r2)
 	lexT := p.LookupType("lexer", "Lexer")
-	for _, fn := range p.FuncsIn("lexer") {
-		headers, _ := loopsOf(fn)
-		isHeader := map[*ssa.BasicBlock]bool{}
-		for _, h := range headers {
-			isHeader[h] = true
-		}
-		for _, s := range storesToField([]*ssa.Function{fn}, lexT, "line") {
-			// only increments of the line counter (the constructor's `line: 1` is an initialisation)
-			if bo, ok := s.store.Val.(*ssa.BinOp); !ok || bo.Op != token.ADD || !(isFieldLoad(bo.X, lexT, "line") || isFieldLoad(bo.Y, lexT, "line")) {
-				continue
-			}
-			// explore forward
-			type node struct {
-				b    *ssa.BasicBlock
-				i    int
-				last string
-			}
-			seen := map[string]bool{}
-			var bad string
-			var walk func(n node)
-			walk = func(n node) {
-				if bad != "" {
-					return
-				}
-				k := fmt.Sprintf("%d:%d:%s", n.b.Index, n.i, n.last)
-				if seen[k] {
-					return
-				}
-				seen[k] = true
-				last := n.last
-				for i := n.i; i < len(n.b.Instrs); i++ {
-					switch x := n.b.Instrs[i].(type) {
-					case *ssa.Store:
-						if fa, ok := x.Addr.(*ssa.FieldAddr); ok {
-							nn, f, _, _ := fieldOf(fa)
-							if nn != nil && sameNamed(nn, lexT) {
-								switch f {
-								case "endRunes":
-									last = "cursor"
-								case "lineStartRunes":
-									last = "lineStart"
-								case "line":
-									if x != s.store {
-										// another line increment starts its own obligation
-									}
-								}
-							}
-						}
-					case *ssa.Return:
-						if last != "lineStart" {
-							bad = "return at " + p.Pos(x.Pos())
-						}
-						return
-					}
-				}
-				for _, sc := range n.b.Succs {
-					if isHeader[sc] {
-						if last != "lineStart" {
-							bad = "next iteration (loop at " + p.Pos(loopPos(sc)) + ")"
-						}
-						continue
-					}
-					walk(node{sc, 0, last})
-				}
-			}
-			walk(node{s.store.Block(), instrIndex(s.store) + 1, "none"})
-			site := "line++ at " + p.Pos(s.store.Pos()) + " in " + p.FuncName(fn)
-			if bad != "" {
-				r2.Fail(s.store.Pos(), p.FuncName(fn), "lineStart not last after line++", "after this line increment a path to the "+bad+" ends with the rune cursor being advanced after (or without) `lineStartRunes = endRunes`: the rest of the terminator (the LF of a CRLF) is counted into the next line, so the first token of that line is reported one column to the right")
-			} else {
-				r2.OK(site, "every path ends with lineStartRunes = endRunes")
-			}
-		}
-	}
 
 	// ---- R3 byte/rune pairing
 	r3 := c.Rule("R3", "the rune cursor is never advanced by a byte length", 10)
-	for _, fn := range p.FuncsIn("lexer") {
-		for _, s := range storesToField([]*ssa.Function{fn}, lexT, "endRunes") {
-			bo, ok := s.store.Val.(*ssa.BinOp)
-			if !ok || (bo.Op != token.ADD && bo.Op != token.SUB) {
-				if _, isC := s.store.Val.(*ssa.Const); isC {
-					continue
-				}
-				r3.Fail(s.store.Pos(), p.FuncName(fn), "rune cursor assigned a non-incremental value", "the rune cursor is set rather than advanced")
-				continue
-			}
-			var delta ssa.Value
-			if isFieldLoad(bo.X, lexT, "endRunes") {
-				delta = bo.Y
-			} else if isFieldLoad(bo.Y, lexT, "endRunes") && bo.Op == token.ADD {
-				delta = bo.X
-			}
-			if delta == nil {
-				r3.Fail(s.store.Pos(), p.FuncName(fn), "rune cursor update of unknown shape", "the rune cursor is not updated as cursor +/- delta")
-				continue
-			}
-			kind, why := runeDeltaKind(p, delta, 0)
-			site := fmt.Sprintf("endRunes %s= %s at %s in %s", bo.Op, describeVal(delta), p.Pos(s.store.Pos()), p.FuncName(fn))
-			if kind == "bytes" {
-				r3.Fail(s.store.Pos(), p.FuncName(fn), "rune cursor advanced by a byte length ("+why+")", "the rune cursor is advanced by "+why+", which counts bytes: after text containing a multi-byte character every later offset (and column) is shifted, and offsets can run past the end of the source")
-			} else if kind == "unknown" {
-				r3.Fail(s.store.Pos(), p.FuncName(fn), "rune cursor advanced by a value of unknown unit ("+why+")", "cannot tell that the value added to the rune cursor counts characters rather than bytes")
-			} else {
-				r3.OK(site, kind)
-			}
-		}
-	}
+	c04CursorUnits(c, r3)
 
 	// ---- R6 unit steps skip single-byte characters
 	r6 := c.Rule("R6", "a unit step of both cursors steps over a byte below 0x80", 10)
@@ -422,6 +319,24 @@ func runeDeltaKind(p *Program, v ssa.Value, depth int) (string, string) {
 			if calleeName(call) == "unicode/utf8.DecodeRuneInString" && x.Index == 1 {
 				return "bytes", "the byte width of a decoded rune"
 			}
+			// a module function that returns such a tuple (the lexer's peek)
+			if g := call.Call.StaticCallee(); g != nil && p.inModule(g) && len(g.Blocks) > 0 && depth < 4 {
+				worst := ""
+				for _, ret := range returnsOf(g) {
+					vals := returnValues(ret)
+					if x.Index >= len(vals) {
+						return "unknown", "a tuple component"
+					}
+					k, w := runeDeltaKind(p, vals[x.Index], depth+1)
+					if k == "bytes" || k == "unknown" {
+						return k, w
+					}
+					worst = k
+				}
+				if worst != "" {
+					return worst, ""
+				}
+			}
 		}
 		return "unknown", "a tuple component"
 	case *ssa.BinOp:
@@ -440,7 +355,25 @@ func runeDeltaKind(p *Program, v ssa.Value, depth int) (string, string) {
 			return k1, ""
 		}
 	case *ssa.Parameter:
-		return "unknown", "parameter " + x.Name()
+		// a stepping helper: the parameter is what its callers pass
+		fn := x.Parent()
+		idx := paramIndex(fn, x)
+		calls := callsTo(p.FuncsIn("lexer"), fn)
+		if idx < 0 || len(calls) == 0 || fn.Parent() != nil {
+			return "unknown", "parameter " + x.Name()
+		}
+		worst := ""
+		for _, ci := range calls {
+			if idx >= len(ci.Common().Args) {
+				return "unknown", "parameter " + x.Name()
+			}
+			k, w := runeDeltaKind(p, ci.Common().Args[idx], depth+1)
+			if k == "bytes" || k == "unknown" {
+				return k, w + ", passed as " + x.Name() + " by " + p.FuncName(ci.Parent()) + " at " + p.Pos(ci.Pos())
+			}
+			worst = k
+		}
+		return worst, ""
 	case *ssa.Convert:
 		return runeDeltaKind(p, x.X, depth+1)
 	case *ssa.UnOp:
@@ -671,4 +604,248 @@ func tokenCoordinateObligations(c *Ctx, r1 *RuleResult) map[string]*tokOb {
 		r1.AnchorLost("the store of startRunes in ReadToken (where a token begins)")
 	}
 	return obs
+}
+
+// c04LineState (C04.R2, C01.R8): after the line counter is incremented, the last write among {rune cursor advances,
+// lineStart := cursor} before the scanner's next loop head or return is the lineStart assignment — so the line start is
+// the offset after the whole terminator and a column never exceeds the line's length by more than one. A function that
+// counts the line without looking at the input hands the obligation to its callers.
+func c04LineState(c *Ctx, r2 *RuleResult) {
+	p := c.P
+	lexT := p.LookupType("lexer", "Lexer")
+	lexFns := p.FuncsIn("lexer")
+	isLineInc := func(st *ssa.Store) bool {
+		fa, ok := st.Addr.(*ssa.FieldAddr)
+		if !ok {
+			return false
+		}
+		nn, f, _, _ := fieldOf(fa)
+		if nn == nil || !sameNamed(nn, lexT) || f != "line" {
+			return false
+		}
+		bo, ok := st.Val.(*ssa.BinOp)
+		return ok && bo.Op == token.ADD && (isFieldLoad(bo.X, lexT, "line") || isFieldLoad(bo.Y, lexT, "line"))
+	}
+	// roles of the lexer's functions: which advance the rune cursor (directly or through callees), which count a line,
+	// and which look at the input (a function that counts a line without looking at the input cannot know whether the
+	// terminator is complete: the obligation continues in its caller)
+	storesCursor := map[*ssa.Function]bool{}
+	incsLine := map[*ssa.Function]bool{}
+	readsInput := map[*ssa.Function]bool{}
+	for _, fn := range lexFns {
+		allInstrs(fn, func(in ssa.Instruction) {
+			switch x := in.(type) {
+			case *ssa.Store:
+				if isLineInc(x) {
+					incsLine[fn] = true
+				}
+				if fa, ok := x.Addr.(*ssa.FieldAddr); ok {
+					if nn, f, _, _ := fieldOf(fa); nn != nil && sameNamed(nn, lexT) && f == "endRunes" {
+						storesCursor[fn] = true
+					}
+				}
+			case *ssa.FieldAddr:
+				if nn, f, _, _ := fieldOf(x); nn != nil && f == "Input" && (sameNamed(nn, lexT) || nn.Obj().Name() == "Source") {
+					readsInput[fn] = true
+				}
+			}
+		})
+	}
+	for changed := true; changed; {
+		changed = false
+		for _, fn := range lexFns {
+			if storesCursor[fn] {
+				continue
+			}
+			allInstrs(fn, func(in ssa.Instruction) {
+				if call, ok := in.(ssa.CallInstruction); ok {
+					if g := call.Common().StaticCallee(); g != nil && storesCursor[g] && !storesCursor[fn] {
+						storesCursor[fn] = true
+						changed = true
+					}
+				}
+			})
+		}
+	}
+	lineHelper := func(g *ssa.Function) bool { return g != nil && incsLine[g] && !readsInput[g] }
+	type r2node struct {
+		b    *ssa.BasicBlock
+		i    int
+		last string
+	}
+	// r2walk explores forward from (b, i) and returns the first place where a path ends (return, next loop iteration)
+	// with something other than the lineStart assignment last; exits collects the states at returns when wanted.
+	var exitMemo = map[*ssa.Function]string{}
+	var r2walk func(fn *ssa.Function, start r2node, exits *[]string) string
+	var exitLast func(g *ssa.Function) string
+	r2walk = func(fn *ssa.Function, start r2node, exits *[]string) string {
+		headers, _ := loopsOf(fn)
+		isHeader := map[*ssa.BasicBlock]bool{}
+		for _, h := range headers {
+			isHeader[h] = true
+		}
+		seen := map[string]bool{}
+		bad := ""
+		var walk func(n r2node)
+		walk = func(n r2node) {
+			if bad != "" {
+				return
+			}
+			k := fmt.Sprintf("%d:%d:%s", n.b.Index, n.i, n.last)
+			if seen[k] {
+				return
+			}
+			seen[k] = true
+			last := n.last
+			for i := n.i; i < len(n.b.Instrs); i++ {
+				switch x := n.b.Instrs[i].(type) {
+				case *ssa.Store:
+					if fa, ok := x.Addr.(*ssa.FieldAddr); ok {
+						nn, f, _, _ := fieldOf(fa)
+						if nn != nil && sameNamed(nn, lexT) {
+							switch f {
+							case "endRunes":
+								last = "cursor"
+							case "lineStartRunes":
+								last = "lineStart"
+							}
+						}
+					}
+				case ssa.CallInstruction:
+					g := x.Common().StaticCallee()
+					switch {
+					case lineHelper(g):
+						last = exitLast(g)
+					case g != nil && storesCursor[g]:
+						last = "cursor"
+					}
+				case *ssa.Return:
+					if exits != nil {
+						*exits = append(*exits, last)
+						return
+					}
+					if last != "lineStart" {
+						bad = "return at " + p.Pos(x.Pos())
+					}
+					return
+				}
+			}
+			for _, sc := range n.b.Succs {
+				if isHeader[sc] {
+					if last != "lineStart" && exits == nil {
+						bad = "next iteration (loop at " + p.Pos(loopPos(sc)) + ")"
+					}
+					continue
+				}
+				walk(r2node{sc, 0, last})
+			}
+		}
+		walk(start)
+		return bad
+	}
+	exitLast = func(g *ssa.Function) string {
+		if v, ok := exitMemo[g]; ok {
+			return v
+		}
+		exitMemo[g] = "cursor"
+		var exits []string
+		r2walk(g, r2node{g.Blocks[0], 0, "none"}, &exits)
+		res := "lineStart"
+		for _, e := range exits {
+			if e != "lineStart" {
+				res = "cursor"
+			}
+		}
+		if len(exits) == 0 {
+			res = "cursor"
+		}
+		exitMemo[g] = res
+		return res
+	}
+	why := func(bad string) string {
+		return "after this line increment a path to the " + bad + " ends with the rune cursor being advanced after (or without) `lineStartRunes = endRunes`: the rest of the terminator (the LF of a CRLF) is counted into the next line, so the first token of that line is reported one column to the right"
+	}
+	for _, fn := range lexFns {
+		for _, s := range storesToField([]*ssa.Function{fn}, lexT, "line") {
+			// only increments of the line counter (the constructor's `line: 1` is an initialisation)
+			if !isLineInc(s.store) {
+				continue
+			}
+			site := "line++ at " + p.Pos(s.store.Pos()) + " in " + p.FuncName(fn)
+			if lineHelper(fn) {
+				// the obligation is the caller's: checked at every call site below
+				r2.OK(site, "in a helper that does not look at the input: the obligation is checked at its call sites")
+				continue
+			}
+			bad := r2walk(fn, r2node{s.store.Block(), instrIndex(s.store) + 1, "none"}, nil)
+			if bad != "" {
+				r2.Fail(s.store.Pos(), p.FuncName(fn), "lineStart not last after line++", why(bad))
+			} else {
+				r2.OK(site, "every path ends with lineStartRunes = endRunes")
+			}
+		}
+		// calls of line helpers
+		allInstrs(fn, func(in ssa.Instruction) {
+			call, ok := in.(ssa.CallInstruction)
+			if !ok || !lineHelper(call.Common().StaticCallee()) {
+				return
+			}
+			g := call.Common().StaticCallee()
+			site := "call of " + p.FuncName(g) + " at " + p.Pos(call.Pos()) + " in " + p.FuncName(fn)
+			if lineHelper(fn) {
+				r2.OK(site, "in a helper that does not look at the input: checked at its call sites")
+				return
+			}
+			bad := r2walk(fn, r2node{call.Block(), instrIndex(call) + 1, exitLast(g)}, nil)
+			if bad != "" {
+				r2.Fail(call.Pos(), p.FuncName(fn), "lineStart not last after "+g.Name()+"()", why(bad))
+			} else {
+				r2.OK(site, "every path ends with lineStartRunes = endRunes")
+			}
+		})
+	}
+
+}
+
+// c04CursorUnits (C04.R3, C03.R9): every update of the rune cursor adds a constant, a unit counter of single-byte
+// characters or a rune count — never a byte length.
+func c04CursorUnits(c *Ctx, r3 *RuleResult) {
+	p := c.P
+	lexT := p.LookupType("lexer", "Lexer")
+	if lexT == nil {
+		r3.AnchorLost("lexer.Lexer")
+		return
+	}
+	for _, fn := range p.FuncsIn("lexer") {
+		for _, s := range storesToField([]*ssa.Function{fn}, lexT, "endRunes") {
+			bo, ok := s.store.Val.(*ssa.BinOp)
+			if !ok || (bo.Op != token.ADD && bo.Op != token.SUB) {
+				if _, isC := s.store.Val.(*ssa.Const); isC {
+					continue
+				}
+				r3.Fail(s.store.Pos(), p.FuncName(fn), "rune cursor assigned a non-incremental value", "the rune cursor is set rather than advanced")
+				continue
+			}
+			var delta ssa.Value
+			if isFieldLoad(bo.X, lexT, "endRunes") {
+				delta = bo.Y
+			} else if isFieldLoad(bo.Y, lexT, "endRunes") && bo.Op == token.ADD {
+				delta = bo.X
+			}
+			if delta == nil {
+				r3.Fail(s.store.Pos(), p.FuncName(fn), "rune cursor update of unknown shape", "the rune cursor is not updated as cursor +/- delta")
+				continue
+			}
+			kind, why := runeDeltaKind(p, delta, 0)
+			site := fmt.Sprintf("endRunes %s= %s at %s in %s", bo.Op, describeVal(delta), p.Pos(s.store.Pos()), p.FuncName(fn))
+			if kind == "bytes" {
+				r3.Fail(s.store.Pos(), p.FuncName(fn), "rune cursor advanced by a byte length ("+why+")", "the rune cursor is advanced by "+why+", which counts bytes: after text containing a multi-byte character every later offset (and column) is shifted, and offsets can run past the end of the source")
+			} else if kind == "unknown" {
+				r3.Fail(s.store.Pos(), p.FuncName(fn), "rune cursor advanced by a value of unknown unit ("+why+")", "cannot tell that the value added to the rune cursor counts characters rather than bytes")
+			} else {
+				r3.OK(site, kind)
+			}
+		}
+	}
+
 }
